@@ -1305,6 +1305,10 @@ func main() {
 		childMain(os.Args[2])
 		return
 	}
+	if len(os.Args) > 2 && os.Args[1] == "-hammer-child" {
+		hammerChild(os.Args[2])
+		return
+	}
 	r := vf.Start("C19", "fault_enumeration")
 	r.Watchdog(40 * time.Minute)
 	r.SetRule("a case = (scenario, crash point): one hc operation (Set / Delete / SaveEntity / DeleteEntity / NewIPTransport) run in a child process " +
@@ -1662,6 +1666,7 @@ func main() {
 		r.Extra("unconfirmed_crash_points", unconfirmed)
 		r.Inconclusive(fmt.Sprintf("%d crash points could not be confirmed, first: %s", len(unconfirmed), unconfirmed[0]))
 	}
+	r.Guard("overlapping writes", func() { hammer(r, root) })
 	r.Floor("crash_points_injected", int(r.Counter("crash_points_injected")), enumerated)
 	r.Floor("crash_points_confirmed", int(r.Counter("crash_points_confirmed")), enumerated)
 	r.Floor("scenarios_with_crash_points", len(jobs), 1)
